@@ -11,8 +11,9 @@ Input (one command per line, addresses in hex without prefix):
   ev call <f> <pub>              -> a call through item->addr
   ev gen <f> <pub>               -> MIR_gen (ctx, f)
   ev bbgen <f> <pub>
-after every `ev` line the state of every function seen so far is printed as
+  show                           -> the state of every function seen so far:
   st <f> addr=<a|none> bytes=<hex> kind=<k> mc=<a|none> target=<a|none> get=<a> adm=<0|1>
+  (adm: were all events since the previous `show` admissible), then `end`
 This is the same vocabulary `harness/c03_thunk.c` prints for the real library. -/
 open MirVerif MirVerif.Thunk
 
@@ -67,6 +68,7 @@ structure DS where
   u : W64 := 0
   st : State := init
   seen : List Nat := []
+  adm : Bool := true   -- were all events since the last `show` admissible
 
 def parseEvent (ts : List String) : Option (Event × List Nat) :=
   match ts with
@@ -99,8 +101,9 @@ def stepLine (d : DS) (ts : List String) : DS × List String :=
       let adm := admissible d.st e
       let st' := step d.u d.st e
       let seen := (d.seen ++ fs.filter (fun f => !d.seen.contains f)).mergeSort (· ≤ ·)
-      ({ d with st := st', seen := seen }, seen.map (fun f => stLine st' f adm) ++ ["end"])
+      ({ d with st := st', seen := seen, adm := d.adm && adm }, [])
     | none => (d, ["bad-event"])
+  | ["show"] => ({ d with adm := true }, d.seen.map (fun f => stLine d.st f d.adm) ++ ["end"])
   | [] => (d, [])
   | _ => (d, ["bad-command"])
 
